@@ -36,7 +36,7 @@ NODASH = WS + "bytes" + WS + "=" + WS + "[0-9]+" + WS      # known finding F-13b
 def u_parse(c):
     import tornado.httputil as U
     hdr = c.str("range_header", latin1=True)     # header text comes from the HTTP parser: latin-1
-    if not c.symbolic:
+    if not c.symbolic and c.model is None:
         hdr = c.rng.choice(["bytes=0-3", "bytes=2-", "bytes=-4", "bytes=8", "bytes=+1-2", "bytes=1_0-", "bytes= 1 - 2 ", "bytes=-", "x=1-2",
                             "bytes=1-2,4-5", "bytes=--5", "bytes=١-", "bytes=a-b", "bytes=0-0", "bytes=-0", hdr])
         c.values["range_header"] = hdr
